@@ -268,6 +268,13 @@ func Render(g *spec.Grammar, p Parts, o Options) string {
 		tgroups[nt.Tag] = append(tgroups[nt.Tag], i)
 	}
 	for _, tag := range torder {
+		if coin(3) == 1 && len(tgroups[tag]) > 1 {
+			// one %type line per nonterminal
+			for _, ni := range tgroups[tag] {
+				blocks = append(blocks, []lex{{s: "%type"}, {s: "<", punct: true}, {s: tag}, {s: ">", punct: true}, {s: g.NTs[ni].Name, nl: true}})
+			}
+			continue
+		}
 		l := []lex{{s: "%type"}, {s: "<", punct: true}, {s: tag}, {s: ">", punct: true}}
 		for _, ni := range tgroups[tag] {
 			l = append(l, lex{s: g.NTs[ni].Name})
